@@ -9,7 +9,10 @@ import (
 	"strings"
 
 	"github.com/herohde/morlock/cmd/bernstein/bernstein"
+	"github.com/herohde/morlock/cmd/sargon/sargon"
+	"github.com/herohde/morlock/pkg/search"
 	"github.com/herohde/morlock/pkg/board"
+	"github.com/herohde/morlock/pkg/board/fen"
 	"github.com/herohde/morlock/pkg/eval"
 )
 
@@ -239,6 +242,64 @@ func init() {
 			bit01(pos.IsChecked(turn)), uciList(base), strsOrDash(safe), uciList(plausible), uciList(table), strsOrDash(sel),
 			flags(plOK), flags(tblOK), flags(selOK), strsOrDash(caps), bit01(capOK), strsOrDash(atts))
 	})
+	registerEval("explore2", func(a []string) string {
+		// explore2 <kind> <fenA> ; <fenB>: the move filters of the engines (BERNSTEIN's plausible-move table, SARGON's and
+		// TUROCHAMP's explorations) are functions of the board they were asked about: a filter obtained for board A still answers
+		// for A after a filter for another board was obtained (no state shared between the two), and equals a filter asked afresh
+		kind := a[0]
+		i := 1
+		for i < len(a) && a[i] != ";" {
+			i++
+		}
+		fa, fb := strings.Join(a[1:i], " "), ""
+		if i < len(a) {
+			fb = strings.Join(a[i+1:], " ")
+		}
+		ba, bb := boardFromLine(fa, nil), boardFromLine(fb, nil)
+		if ba == nil || bb == nil {
+			return "err"
+		}
+		ctx := context.Background()
+		var ex search.Exploration
+		switch kind {
+		case "bernstein":
+			ex = bernstein.PlausibleMoveTable{Limit: 7}.Explore
+		case "bernstein3":
+			ex = bernstein.PlausibleMoveTable{Limit: 3}.Explore
+		case "sargon":
+			ex = sargon.SkipUnderPromotions
+		default:
+			return "bad-op"
+		}
+		sel := func(b *board.Board, pick board.MovePredicateFn) string {
+			var out []string
+			for _, m := range b.Position().LegalMoves(b.Turn()) {
+				if pick(m) {
+					out = append(out, moveUci(m))
+				}
+			}
+			sort.Strings(out)
+			return strings.Join(out, ",")
+		}
+		_, pickA := ex(ctx, ba)
+		first := sel(ba, pickA)
+		_, pickB := ex(ctx, bb)
+		selB := sel(bb, pickB)
+		again := sel(ba, pickA) // the filter obtained BEFORE the other board was looked at
+		_, pickA2 := ex(ctx, ba)
+		fresh := sel(ba, pickA2)
+		_, pickB2 := ex(ctx, bb)
+		if first != again || first != fresh {
+			return fmt.Sprintf("MISMATCH the filter for %s selects [%s] when asked at once, [%s] after another board was looked at, [%s] when asked afresh", strings.ReplaceAll(fa, " ", "_"), first, again, fresh)
+		}
+		if selB != sel(bb, pickB2) || selB != sel(bb, pickB) {
+			return "MISMATCH the filter of the second board changed"
+		}
+		if len(ba.Position().LegalMoves(ba.Turn())) > 0 && first == "" {
+			return "MISMATCH no move selected although a legal move exists"
+		}
+		return "ok"
+	})
 	register("bernstein", genBernstein)
 }
 
@@ -308,6 +369,25 @@ func genBernstein(o *Out, r *rand.Rand, thorough bool) {
 	n := 620
 	if thorough {
 		n = 13000
+	}
+	// a filter is a function of the board it was asked about, whatever other boards were looked at since
+	e2 := 12
+	if thorough {
+		e2 = 300
+	}
+	for i := 0; i < e2; i++ {
+		fa := corpus[r.Intn(len(corpus))]
+		fb := corpus[r.Intn(len(corpus))]
+		if i%3 == 0 {
+			fb = mirrorFEN(fa) // the colour-mirrored twin: same ply, same shape
+		}
+		if i%3 == 1 {
+			fa = fen.Initial
+		}
+		line := fmt.Sprintf("published explore2 %s %s ; %s", []string{"bernstein", "bernstein3", "sargon"}[r.Intn(3)], fa, fb)
+		o.do(line)
+		o.Count("explore2")
+		o.Nontrivial(line)
 	}
 	factors := []int{1, 8, 20, 0, 100, 3, 10000, 7}
 	limits := []int{7, 1, 3, 0, 50, -1, 2, 5}
